@@ -763,3 +763,239 @@ func allLits(fn *Func) []*Func {
 	walk(fn)
 	return out
 }
+
+// C03-R8: a task is ready only if *every* dependency is satisfied.
+//
+// state.Enqueue decides readiness with a flag that starts true and is lowered
+// in the loop over the task's dependencies.  The flag is a conjunction: every
+// assignment to it inside the loop is the constant false, and on every
+// iteration in which the recursive Enqueue of the dependency reports
+// unsatisfied tasks (n != 0) such an assignment is reached (its guards are
+// evaluated under n > 0 and must all hold).  A flag that is *re-assigned*
+// from the current dependency lets the last dependency decide alone, and the
+// task is handed to the executor while an earlier dependency is still running
+// or lost (seed C03-c2).
+func c03r8(c *RC) {
+	pr := c.P
+	fn := c.MustFn("exec.(*state).Enqueue")
+	if fn == nil {
+		return
+	}
+	fq := fn.QName()
+	le := newLinEnv(pr, fn)
+	le.defs = map[types.Object]ast.Expr{}
+	norm := func(e ast.Expr) lin { return le.norm(e, 0) }
+	n := 0
+	inspectNoLit(fn.Body, func(nd ast.Node) bool {
+		rs, ok := nd.(*ast.RangeStmt)
+		if !ok {
+			return true
+		}
+		t := fn.Pkg.Info.TypeOf(rs.X)
+		if t == nil {
+			return true
+		}
+		sl, ok := t.Underlying().(*types.Slice)
+		if !ok || short(namedQName(sl.Elem())) != "exec.TaskDep" {
+			return true
+		}
+		// the count returned by the recursive call in this loop
+		var cnt *ast.Ident
+		inspectNoLit(rs.Body, func(m ast.Node) bool {
+			as, ok := m.(*ast.AssignStmt)
+			if !ok || len(as.Lhs) != 1 || len(as.Rhs) != 1 {
+				return true
+			}
+			if k, ok := ast.Unparen(as.Rhs[0]).(*ast.CallExpr); ok && fn.Pkg.CalleeName(k) == fq {
+				if id, ok := as.Lhs[0].(*ast.Ident); ok {
+					cnt = id
+				}
+			}
+			return true
+		})
+		if cnt == nil {
+			return true
+		}
+		// bool locals assigned in the loop and declared outside it
+		flags := map[types.Object][]*ast.AssignStmt{}
+		inspectNoLit(rs.Body, func(m ast.Node) bool {
+			as, ok := m.(*ast.AssignStmt)
+			if !ok {
+				return true
+			}
+			for _, l := range as.Lhs {
+				id, ok := l.(*ast.Ident)
+				if !ok {
+					continue
+				}
+				o := fn.Pkg.Info.Uses[id]
+				if o == nil || o.Pos() >= rs.Pos() {
+					continue
+				}
+				if b, ok := o.Type().Underlying().(*types.Basic); ok && b.Kind() == types.Bool {
+					flags[o] = append(flags[o], as)
+				}
+			}
+			return true
+		})
+		for o, asg := range flags {
+			n++
+			allFalse, reached := true, false
+			for _, as := range asg {
+				if len(as.Lhs) != 1 || len(as.Rhs) != 1 {
+					allFalse = false
+					continue
+				}
+				tv := fn.Pkg.Info.Types[as.Rhs[0]]
+				if tv.Value == nil || tv.Value.Kind() != constant.Bool || constant.BoolVal(tv.Value) {
+					allFalse = false
+					continue
+				}
+				// reached whenever n > 0: every guard holds in that scenario
+				holds := true
+				atom := clauseAtom(norm, lin{le.atom(cnt): 1}, ">", nil)
+				for _, g := range guardsAt(fn, as) {
+					if g.cond.Pos() < rs.Body.Pos() {
+						continue // guards outside the loop body do not concern the iteration
+					}
+					if v, known := evalCond3(g.cond, atom); !known || v != g.val {
+						holds = false
+					}
+				}
+				if holds {
+					reached = true
+				}
+			}
+			c.Check(allFalse && reached, fq+"|readiness-is-a-conjunction-over-the-dependencies", pr.Pos(rs.Pos()),
+				"in Enqueue's loop over a task's dependencies the readiness flag "+o.Name()+" is not a conjunction (it is assigned something other than the constant false, or is not lowered on every iteration whose dependency reports unsatisfied tasks): the last dependency alone decides, and a task is handed to the executor while an earlier dependency is still running, lost or failed")
+		}
+		return true
+	})
+	c.Floor("readiness flags in Enqueue", n, 1)
+}
+
+// C16-R9: every field of a decoded invocation comes from the stream.
+//
+// gob omits zero-valued fields, and decoding leaves such a field of the
+// destination untouched.  A GobDecode that pre-initialises (or afterwards
+// "normalises") a field that travels — for instance Env with a fresh, writable
+// CompileEnv — therefore turns the sender's frozen environment (Writable ==
+// false, the zero value) back into a writable one, and the worker re-decides
+// cache hits and compiles a different graph (seeds C16-c1, C08-c3).  Decided:
+// (*execInvocation).GobDecode assigns no field listed in directEncodedFields,
+// nor any part of one.
+func c16r9(c *RC) {
+	pr := c.P
+	dec := c.MustFn("exec.(*execInvocation).GobDecode")
+	def := c.MustFn("exec.(*execInvocation).directEncodedFields")
+	if dec == nil || def == nil {
+		return
+	}
+	fq := dec.QName()
+	// fields whose address is listed
+	listed := map[string]bool{}
+	rdef := recvOf(def)
+	ast.Inspect(def.Body, func(nd ast.Node) bool {
+		if u, ok := nd.(*ast.UnaryExpr); ok && u.Op == token.AND {
+			if se, ok := u.X.(*ast.SelectorExpr); ok {
+				root := se
+				for {
+					inner, ok := root.X.(*ast.SelectorExpr)
+					if !ok {
+						break
+					}
+					root = inner
+				}
+				if id, ok := root.X.(*ast.Ident); ok && id.Name == rdef {
+					listed[root.Sel.Name] = true
+				}
+			}
+		}
+		return true
+	})
+	if len(listed) == 0 {
+		c.Undecide("directEncodedFields lists no field of the receiver")
+		return
+	}
+	r := recvOf(dec)
+	bad := ""
+	var badPos token.Pos
+	ast.Inspect(dec.Body, func(nd ast.Node) bool {
+		as, ok := nd.(*ast.AssignStmt)
+		if !ok {
+			return true
+		}
+		for _, l := range as.Lhs {
+			e := ast.Unparen(l)
+			for {
+				switch x := e.(type) {
+				case *ast.IndexExpr:
+					e = x.X
+					continue
+				case *ast.StarExpr:
+					e = x.X
+					continue
+				}
+				break
+			}
+			se, ok := e.(*ast.SelectorExpr)
+			if !ok {
+				continue
+			}
+			root := se
+			for {
+				inner, ok := root.X.(*ast.SelectorExpr)
+				if !ok {
+					break
+				}
+				root = inner
+			}
+			if id, ok := root.X.(*ast.Ident); ok && id.Name == r && listed[root.Sel.Name] {
+				bad, badPos = root.Sel.Name, as.Pos()
+			}
+		}
+		return true
+	})
+	pos := dec.Body.Pos()
+	if bad != "" {
+		pos = badPos
+	}
+	c.Check(bad == "", fq+"|travelling-fields-are-only-decoded", pr.Pos(pos),
+		"GobDecode assigns the field "+bad+", which travels in the stream: gob omits zero values and leaves the destination's field untouched for them, so whatever is assigned here survives for exactly the values that encode as zero — a frozen compile environment (Writable == false) arrives writable again and the worker re-decides cache hits, compiling a different task graph than the driver")
+	c.Floor("fields listed for direct encoding", len(listed), 3)
+}
+
+// C18-R10: Fold hands its function the accumulator followed by *all columns
+// after the first*.
+//
+// Fold groups by the first column only, whatever the input's key prefix; its
+// documented schema is func(acc, t2, ..., tn) acc.  The expected argument
+// vector is built with slicetype.Slice(slice, lo, hi): lo must be the constant
+// 1 and hi the slice's NumOut(), as linear forms.  With lo = Prefix() the
+// constructor rejects the fitting function for an input of prefix > 1 and
+// accepts one that fails inside reflect at run time (seed C18-c1).
+func c18r10(c *RC) {
+	pr := c.P
+	fn := c.MustFn(".Fold")
+	if fn == nil {
+		return
+	}
+	fq := fn.QName()
+	le := newLinEnv(pr, fn)
+	n := 0
+	for _, k := range callsIn(fn.Body) {
+		if fn.Pkg.CalleeName(k) != "slicetype.Slice" || len(k.Args) != 3 {
+			continue
+		}
+		if canon(fn, k.Args[0]) != "$p0" {
+			continue
+		}
+		n++
+		lo, isC := constInt(fn.Pkg, k.Args[1])
+		hi := le.norm(k.Args[2], 0)
+		want := lin{"$p0.NumOut()": 1}
+		c.Check(isC && lo == 1 && hi.String() == want.String(), fq+"|value-columns-are-all-after-the-first", pr.Pos(k.Pos()),
+			"Fold compares its function's parameters with slicetype.Slice(slice, "+expr(k.Args[1])+", "+expr(k.Args[2])+") instead of columns [1, NumOut()): Fold groups by the first column only, so for an input whose key prefix is larger than 1 the documented func(acc, t2, ..., tn) is rejected and a function over fewer columns is accepted, which fails inside reflect when the first task runs")
+	}
+	c.Floor("value-column vectors in Fold", n, 1)
+}
